@@ -79,6 +79,7 @@ class Watch:
     def __init__(self, s):
         self.s = s
         self.leaks = []
+        self.trace = []
         self.calls = 0
         self.depth = 0
         self.max_depth = 0
@@ -98,6 +99,7 @@ class Watch:
         def f(*a):
             io = a[0]
             entry = getmode(io)
+            watch.trace.append((name.split(".")[-1], bool(entry)))
             watch.calls += 1
             watch.depth += 1
             watch.max_depth = max(watch.max_depth, watch.depth)
@@ -176,6 +178,7 @@ def check_case(case, res=None):
                             w.string_sanitization_mode = mode
                             w._ops, w._fail_at = 0, fail_at
                             watch.leaks.clear()
+                            watch.trace.clear()
                             raised = None
                             try:
                                 cls.serialize(w, inst)
@@ -199,6 +202,7 @@ def check_case(case, res=None):
                                 r.chunked_reading_mode = True
                             r._ops, r._fail_at = 0, fail_at
                             watch.leaks.clear()
+                            watch.trace.clear()
                             raised = None
                             try:
                                 cls.deserialize(r)
@@ -207,6 +211,26 @@ def check_case(case, res=None):
                             return r, raised, r.chunked_reading_mode
                     io, raised0, final = run(-1)
                     nops = io._ops
+                    # the "consequently" clause: every nested structure is entered in exactly the mode the
+                    # specification prescribes at that point (reference interpreter), fault-free run
+                    ip = Interp(an)
+                    ref_trace = None
+                    try:
+                        if call["kind"] == "ser":
+                            ip.serialize(c["body"], valuegen.from_json(call["obj"]), c["lex"], mode, label=it["cls"][-1])
+                            ref_trace = ip.trace
+                        elif ip.deserialize(c["body"], bytes.fromhex(call["hex"]), c["lex"], mode, label=it["cls"][-1])[0] == "ok":
+                            ref_trace = ip.trace
+                    except (Invalid, Unspecified, Huge):
+                        ref_trace = None
+                    if ref_trace is not None and raised0 is None and list(watch.trace) != ref_trace:
+                        first = next((i for i, (a, b) in enumerate(zip(watch.trace, ref_trace)) if a != b),
+                                     min(len(watch.trace), len(ref_trace)))
+                        raise Violation(f"nested_calls_entered_in_prescribed_mode:{call['kind']}", dict(cj, fault_at=-1),
+                                        ref_trace[first:first + 3], list(watch.trace)[first:first + 3],
+                                        f"call #{first} of the call tree (class, mode at entry)")
+                    if ref_trace is not None and res is not None:
+                        res.labels["call_trees_compared"] += 1
                     faults = [-1] + sorted({f % (nops + 1) for f in call["faults"]})
                     for k in faults:
                         if k != -1:
